@@ -152,6 +152,57 @@ func indirectUseSpecs() []specCase {
 			}
 		}
 	}
+	// one named set listed directly by two (three) injectors of one package that all need it
+	for order := 0; order < 2; order++ {
+		for third := 0; third < 2; third++ {
+			order, third := order, third
+			g := &GraphSpec{}
+			g.custom = func(b *ir.Builder) *ir.Program {
+				p := b.Root
+				ta, tb, tc, td := b.Leaf(p, "A"), b.Leaf(p, "B"), b.Leaf(p, "C"), b.Leaf(p, "D")
+				set := &ir.Set{Pkg: p, Name: "StorageSet", Items: []*ir.Item{ir.FuncItem(&ir.Func{Pkg: p, Name: "PA", Out: ta}), ir.FuncItem(&ir.Func{Pkg: p, Name: "PB", Params: []*ir.Type{ta}, Out: tb})}}
+				injs := []*ir.Injector{
+					{Name: "InitServer", Out: tc, Items: []*ir.Item{ir.SetRef(set), ir.FuncItem(&ir.Func{Pkg: p, Name: "PC", Params: []*ir.Type{tb}, Out: tc})}},
+					{Name: "InitWorker", Out: td, Items: []*ir.Item{ir.SetRef(set), ir.FuncItem(&ir.Func{Pkg: p, Name: "PD", Params: []*ir.Type{tb, ta}, Out: td})}},
+				}
+				if third == 1 {
+					injs = append(injs, &ir.Injector{Name: "InitPlain", Out: tb, Items: []*ir.Item{ir.SetRef(set)}})
+				}
+				if order == 1 {
+					for i, j := 0, len(injs)-1; i < j; i, j = i+1, j-1 {
+						injs[i], injs[j] = injs[j], injs[i]
+					}
+				}
+				return &ir.Program{Root: p, Injectors: injs}
+			}
+			out = append(out, specCase{fmt.Sprintf("C08/indirect/set-shared-by-injectors/order=%d/third=%d", order, third), g})
+		}
+	}
+	// a wire.FieldsOf call listing two fields of which one is used, at the bottom of a long chain (many used items)
+	for _, n := range []int{8, 20, 40} {
+		for ptr := 0; ptr < 2; ptr++ {
+			n, ptr := n, ptr
+			g := &GraphSpec{}
+			g.custom = func(b *ir.Builder) *ir.Program {
+				p := b.Root
+				tf, tg := b.Leaf(p, "TF"), b.Leaf(p, "TG")
+				hd := b.Agg(p, "H", &ir.Field{Name: "F", T: tf}, &ir.Field{Name: "G", T: tg})
+				var parent *ir.Type = hd
+				if ptr == 1 {
+					parent = ir.Ptr(hd)
+				}
+				items := []*ir.Item{ir.FuncItem(&ir.Func{Pkg: p, Name: "PH", Out: parent}), ir.FieldsOfItem(hd, ptr == 1, "F", "G")}
+				prev := tf
+				for i := 0; i < n; i++ {
+					t := b.Leaf(p, fmt.Sprintf("S%d", i))
+					items = append(items, ir.FuncItem(&ir.Func{Pkg: p, Name: fmt.Sprintf("PS%d", i), Params: []*ir.Type{prev}, Out: t}))
+					prev = t
+				}
+				return &ir.Program{Root: p, Injectors: []*ir.Injector{{Name: "Init", Out: prev, Items: items}}}
+			}
+			out = append(out, specCase{fmt.Sprintf("C08/indirect/fieldsof-two-names-long-chain/n=%d/ptr=%d", n, ptr), g})
+		}
+	}
 	// a chain of bindings written directly in wire.Build: every binding of the chain contributes, whichever end is consumed
 	permutations(3, func(perm []int) {
 		for _, mask := range []int{1, 3, 5} {
